@@ -64,41 +64,43 @@ def run(prop, tier="quick", seed=0, replay=None, nshards=None, only=None):
         if only:
             cells = [c for c in cells if only in json.dumps(c)]
     n = nshards or NSHARDS
-    shards = assign(cells, n)
+    # thorough: four generations of worker processes per slot. One process that compiles
+    # thousands of small programs runs into the kernel's per-process limit on memory mappings
+    # (vm.max_map_count = 65530; observed as "LLVM compilation error: Cannot allocate memory"
+    # with 49 GB free) - fresh processes do not.
+    gens = 1 if (replay or only) else (2 if tier == "quick" else 4)
+    shards = assign(cells, n * gens)
     work = os.path.join(core.VERIF, ".work", f"{prop}-{tier}-{os.getpid()}")
-    os.makedirs(work, exist_ok=True)
+    shutil.rmtree(work, ignore_errors=True)
+    os.makedirs(work)
     env = dict(os.environ)
     env.update({"PYTHONDONTWRITEBYTECODE": "1", "PYTHONHASHSEED": "0",
                 "PYTHONWARNINGS": "ignore", "OMP_NUM_THREADS": "1",
                 "OPENBLAS_NUM_THREADS": "1", "MKL_NUM_THREADS": "1",
                 "XLA_FLAGS": "--xla_cpu_multi_thread_eigen=false intra_op_parallelism_threads=1",
                 "JAX_PLATFORMS": "cpu", core.GUARD: "1"})
-    procs = []
     budget = TIMEOUT[tier]
+    jobs = []
     for i, sh in enumerate(shards):
         cf = os.path.join(work, f"cells{i}.json")
         of = os.path.join(work, f"out{i}.json")
         json.dump(sh, open(cf, "w"))
         cmd = [sys.executable, "-W", "ignore", os.path.join(core.VERIF, "gtmon", "worker.py"),
                "--prop", prop, "--tier", tier, "--seed", str(seed), "--cells", cf,
-               "--out", of, "--budget", str(budget * 0.85)]
-        log = open(os.path.join(work, f"log{i}.txt"), "w")
+               "--out", of, "--budget", str(budget * 0.85 / gens)]
         # every other shard imports the library before double precision is switched on (the
         # repository's own tests do that; module-level constants are evaluated at import time)
         env_i = dict(env, GT_IMPORT_ORDER="lib-first" if (i + seed) % 2 else "x64-first")
         if replay and sh and isinstance(sh[0], dict) and sh[0].get("import_order"):
             env_i["GT_IMPORT_ORDER"] = sh[0]["import_order"]  # a replay keeps the order it failed in
-        procs.append((subprocess.Popen(cmd, env=env_i, stdout=log, stderr=subprocess.STDOUT,
-                                       cwd=core.VERIF), of, log, i))
+        jobs.append((cmd, env_i, of, i))
     problems = []
     outs = []
     deadline = t0 + budget
-    for p, of, log, i in procs:
-        try:
-            p.wait(timeout=max(1.0, deadline - time.time()))
-        except subprocess.TimeoutExpired:
-            p.kill()
-            problems.append(f"shard {i} hit the wall-clock watchdog")
+    running = []
+    pending = list(jobs)
+
+    def finish(p, of, log, i):
         log.close()
         if os.path.exists(of):
             try:
@@ -108,6 +110,27 @@ def run(prop, tier="quick", seed=0, replay=None, nshards=None, only=None):
         else:
             tail = open(os.path.join(work, f"log{i}.txt")).read()[-1500:]
             problems.append(f"shard {i} produced no output (exit {p.returncode}): {tail}")
+
+    while pending or running:
+        while pending and len(running) < n:
+            cmd, env_i, of, i = pending.pop(0)
+            log = open(os.path.join(work, f"log{i}.txt"), "w")
+            running.append((subprocess.Popen(cmd, env=env_i, stdout=log, stderr=subprocess.STDOUT,
+                                             cwd=core.VERIF), of, log, i))
+        still = []
+        for p, of, log, i in running:
+            if p.poll() is not None:
+                finish(p, of, log, i)
+            elif time.time() > deadline:
+                p.kill()
+                p.wait()
+                problems.append(f"shard {i} hit the wall-clock watchdog")
+                finish(p, of, log, i)
+            else:
+                still.append((p, of, log, i))
+        running = still
+        if running:
+            time.sleep(0.2)
     res = merge(prop, mod, tier, seed, cells, outs, problems, time.time() - t0,
                 partial=bool(only or replay))
     if not os.environ.get("GT_KEEP_WORK"):
